@@ -51,6 +51,7 @@ type harness struct {
 	// what happened (for the non triviality rule and the signature)
 	nTwins, nTwinSuffix, nUserCmds int
 	nExports                       int
+	noHash                         bool // do not compare session table hashes (behaviour only)
 	nRetryAfterRestore             int
 	sig                            uint64
 }
@@ -104,6 +105,7 @@ func Run(ctx *runner.Ctx) *runner.Result {
 		panic("rsmtwin: focus must be sessions, membership or snapshot")
 	}
 	h.enum = ctx.Param("enum", "0") == "1"
+	h.noHash = ctx.Param("nohash", "0") == "1"
 	runIdx := atoi(ctx.Param("_i", "-1"), -1)
 
 	// ---- configuration
@@ -409,7 +411,8 @@ func (h *harness) lineage(tag string, cuts []uint64, all bool) {
 	ctx := h.ctx
 	src := h.src
 	n := uint64(len(h.ents))
-	disk := simfs.NewDisk(tag, nil)
+	hook := &fsHook{}
+	disk := simfs.NewDisk(tag, hook)
 	ldb := newMemLogDB()
 	t := h.newReplica(tag+"/saver", 2, h.kind, disk, ldb, "/data")
 	if _, err := t.start(); err != nil {
@@ -427,13 +430,7 @@ func (h *harness) lineage(tag string, cuts []uint64, all bool) {
 		// ---- snapshot at c
 		conc := uint64(0)
 		if h.kind == KindConcurrent && c < n && src.Chance(1, 2) {
-			conc = 1 + uint64(src.Intn(int(minU(4, n-c))))
-			t.user.midSave = func() {
-				t.user.midSave = nil
-				ctx.Ev("concurrent-updates", t.id, c+1, c+conc)
-				h.feedTo(t, c+conc, 0)
-				ctx.Count("probe.concurrent_save_with_updates", 1)
-			}
+			conc = h.armConcurrent(t, hook, "probe.concurrent_save_with_updates")
 		}
 		req := rsm.SSRequest{}
 		if src.Chance(1, 3) {
@@ -441,7 +438,7 @@ func (h *harness) lineage(tag string, cuts []uint64, all bool) {
 		}
 		ctx.Ev("save", t.id, c, uint64(req.Type), conc)
 		ss, ok, err := t.save(req)
-		t.user.midSave = nil
+		t.user.midSave, hook.fn = nil, nil
 		if err != nil {
 			h.viol([]string{"C08"}, []string{"snapshot-suffix-differs"}, "%s: saving a snapshot at index %d failed: %v", t.name, c, err)
 			return
@@ -462,7 +459,7 @@ func (h *harness) lineage(tag string, cuts []uint64, all bool) {
 			}
 		}
 		if src.Chance(1, 4) {
-			h.exported(tag, t)
+			h.exported(tag, t, hook)
 			if ctx.Violated() {
 				return
 			}
@@ -514,6 +511,71 @@ func (h *harness) lineage(tag string, cuts []uint64, all bool) {
 	}
 	h.compareTwin(t, restored)
 	h.compareFinal(t)
+}
+
+// armConcurrent arranges for up to 4 of the entries following the applied
+// index to be applied while the snapshot being taken next is in progress: some
+// right after the state machine prepared the snapshot (when the snapshotter
+// first touches the disk), the rest in the middle of the user state machine
+// writing its image. Only legal for concurrent and on disk state machines.
+func (h *harness) armConcurrent(t *replica, hook *fsHook, probe string) uint64 {
+	src := h.src
+	ctx := h.ctx
+	n := uint64(len(h.ents))
+	pos := t.sm.GetLastApplied()
+	conc := 1 + uint64(src.Intn(int(minU(4, n-pos))))
+	early := uint64(src.Intn(int(conc) + 1)) // 0 = all of them in the middle of the image
+	counted := false
+	count := func() {
+		if !counted {
+			counted = true
+			ctx.Count(probe, 1)
+		}
+	}
+	if early > 0 {
+		hook.fn = func() {
+			ctx.Ev("concurrent-updates-after-prepare", t.id, pos+1, pos+early)
+			h.feedTo(t, pos+early, 0)
+			ctx.Count("probe.updates_between_prepare_and_save", 1)
+			count()
+		}
+	}
+	if early < conc {
+		t.user.midSave = func() {
+			t.user.midSave = nil
+			ctx.Ev("concurrent-updates-mid-image", t.id, pos+early+1, pos+conc)
+			h.feedTo(t, pos+conc, 0)
+			count()
+		}
+	}
+	return conc
+}
+
+// probeMeta takes an exported snapshot of a replica that was just rebuilt and
+// has not applied anything since: the applied index, the term and the
+// membership it records are the ones that were restored.
+func (h *harness) probeMeta(tw *replica, idx uint64) {
+	h.nExports++
+	path := fmt.Sprintf("/probe%d", h.nExports)
+	if err := tw.fs.MkdirAll(path, 0o755); err != nil {
+		panic(fmt.Sprintf("rsmtwin: mkdir: %v", err))
+	}
+	h.ctx.Ev("probe-meta", tw.id, idx)
+	ss, ok, err := tw.save(rsm.SSRequest{Type: rsm.Exported, Path: path})
+	if err != nil || !ok {
+		h.viol([]string{"C08"}, []string{"snapshot-suffix-differs"}, "%s: exporting a snapshot right after recovery at index %d failed: ok=%t err=%v", tw.name, idx, ok, err)
+		return
+	}
+	h.ctx.Count("probe.meta_checked_after_recovery", 1)
+	ref := h.ref.states[idx]
+	if ss.Index != idx || ss.Term != h.ents[idx-1].Term {
+		h.viol([]string{"C08"}, []string{"snapshot-suffix-differs"},
+			"%s: rebuilt at index %d term %d, a snapshot taken right away records index %d term %d", tw.name, idx, h.ents[idx-1].Term, ss.Index, ss.Term)
+	}
+	if !sameMembership(ss.Membership, ref.Full) {
+		h.viol([]string{"C08", "C07"}, []string{"snapshot-suffix-differs", "membership-invariant"},
+			"%s: rebuilt at index %d, a snapshot taken right away records membership %s, want %s", tw.name, idx, memberStr(ss.Membership), memberStr(ref.Full))
+	}
 }
 
 // checkSnapshotRecord: the record describes the state at the cut.
@@ -568,7 +630,7 @@ func (h *harness) checkRecovered(tw *replica, ss pb.Snapshot, how string) {
 	if la := tw.sm.GetLastApplied(); la != idx {
 		all("applied index is %d", la)
 	}
-	if got.Session != ref.Session {
+	if got.Session != ref.Session && !h.noHash {
 		all("session table hash %x, a replica that applied the log up to there has %x", got.Session, ref.Session)
 	}
 	if got.Member != ref.Member || !sameMembership(got.Full, ref.Full) {
@@ -580,6 +642,9 @@ func (h *harness) checkRecovered(tw *replica, ss pb.Snapshot, how string) {
 	} else if rm := tw.node.restored[len(tw.node.restored)-1]; rm.Index != idx || !sameMembership(rm.Membership, ref.Full) {
 		h.viol([]string{"C08", "C07"}, []string{"snapshot-suffix-differs", "membership-invariant"},
 			"%s: after %s: RestoreRemotes was given index %d membership %s, want index %d %s", tw.name, how, rm.Index, memberStr(rm.Membership), idx, memberStr(ref.Full))
+	}
+	if h.src.Chance(1, 3) {
+		h.probeMeta(tw, idx)
 	}
 	if tw.kind != KindOnDisk {
 		if got.User != ref.User {
@@ -729,7 +794,7 @@ func (h *harness) follower(tag string, t *replica, ss pb.Snapshot) {
 
 // exported: the saver exports a snapshot (full image for every kind) and a new
 // replica is started from it, the way an imported snapshot is.
-func (h *harness) exported(tag string, t *replica) {
+func (h *harness) exported(tag string, t *replica, hook *fsHook) {
 	ctx := h.ctx
 	src := h.src
 	n := uint64(len(h.ents))
@@ -744,17 +809,11 @@ func (h *harness) exported(tag string, t *replica) {
 	}
 	conc := uint64(0)
 	if t.kind != KindRegular && pos < n && src.Chance(1, 2) {
-		conc = 1 + uint64(src.Intn(int(minU(4, n-pos))))
-		t.user.midSave = func() {
-			t.user.midSave = nil
-			ctx.Ev("concurrent-updates", t.id, pos+1, pos+conc)
-			h.feedTo(t, pos+conc, 0)
-			ctx.Count("probe.export_with_updates", 1)
-		}
+		conc = h.armConcurrent(t, hook, "probe.export_with_updates")
 	}
 	ctx.Ev("export", t.id, pos, conc)
 	ss, ok, err := t.save(rsm.SSRequest{Type: rsm.Exported, Path: path})
-	t.user.midSave = nil
+	t.user.midSave, hook.fn = nil, nil
 	if err != nil || !ok {
 		h.viol([]string{"C08"}, []string{"snapshot-suffix-differs"}, "%s: exporting a snapshot at index %d failed: ok=%t err=%v", t.name, pos, ok, err)
 		return
@@ -877,7 +936,7 @@ func (h *harness) compareTwin(tw *replica, restored uint64) {
 			// user data ahead of the applied index after a restart
 			continue
 		}
-		if st.User != ref.User || st.Session != ref.Session {
+		if st.User != ref.User || (st.Session != ref.Session && !h.noHash) {
 			h.viol([]string{"C05", "C08"}, []string{"twin-state-differs", "snapshot-suffix-differs"},
 				"%s at index %d: user hash %x session hash %x, the full replica has %x %x", tw.name, idx, st.User, st.Session, ref.User, ref.Session)
 			return
@@ -904,7 +963,7 @@ func (h *harness) compareFinal(tw *replica) {
 		h.viol([]string{"C05", "C08"}, []string{"twin-state-differs", "snapshot-suffix-differs"},
 			"%s: final user data hash %x (last command %d), the full replica has %x (last command %d)", tw.name, got.User, got.UserApplied, ref.User, ref.UserApplied)
 	}
-	if got.Session != ref.Session {
+	if got.Session != ref.Session && !h.noHash {
 		h.viol([]string{"C05", "C08"}, []string{"twin-state-differs", "snapshot-suffix-differs"},
 			"%s: final session table hash %x, the full replica has %x", tw.name, got.Session, ref.Session)
 	}
